@@ -7,6 +7,10 @@
    Subscript/Attribute node around the visited sub-terms (no raw Python value is ever put in a node
    slot: the model has no branch that builds a [Raw] node); the dispatch surface of the class is the
    one the model's rule bodies assume.
+   Well-formed ([wfq]) = the three fusing operators are called with a source and a lambda, First() has
+   an argument, operator names are not values, dictionary literals pair keys and values, lambda
+   parameters are distinct, no raw slot and no comprehension node (sugar is lowered before the
+   simplifier runs).
    The whole-algorithm theorem [simp_no_crash] (Proofs/SimplifyTotal.v): for every fuel, every
    well-formed substitution stack, every counter and every well-formed query the model never returns
    [Crash], and an [Ok] result is again well-formed - in particular it contains no raw slot, so it
